@@ -233,8 +233,15 @@ func runC05(c Case, m *Model) (v Verdict) {
 		v.Counts["class:"+strings.SplitN(class, ":", 2)[0]]++
 		return
 	}
-	// every truncation offset
+	// every truncation offset (files above 1500 bytes: every offset of the first and last 300 bytes, a stride in between)
+	stride := 1
+	if len(b) > 1500 {
+		stride = len(b) / 600
+	}
 	for k := 0; k < len(b); k++ {
+		if stride > 1 && k > 300 && k < len(b)-300 && k%stride != 0 {
+			continue
+		}
 		cut := b[:k]
 		class := judgeRead(cut, &v)
 		v.Counts["reads"]++
